@@ -14,6 +14,7 @@ import (
 	"fmt"
 	"io"
 	"strings"
+	"time"
 
 	"github.com/256dpi/gomqtt/packet"
 
@@ -92,7 +93,7 @@ func (x *c03) emitOracle(stream []byte) {
 }
 
 func (x *c03) decCase(stream []byte, sizes []int, lim int64, endErr bool, sent []packet.Generic) {
-	x.n++
+	x.bump()
 	n := x.n
 	x.emitOracle(stream)
 	end := "eof"
@@ -451,7 +452,7 @@ func (x *c03) decoderCases() {
 // implementation alone (too long for the extracted model's non-tail-recursive list functions)
 func (x *c03) hugePacket() {
 	c := x.c
-	x.n++
+	x.bump()
 	n := x.n
 	c.Emit("case %d huge", n)
 	big := publishOfLen(c.Rng, 2097152+5+40)
@@ -517,6 +518,7 @@ func oneChunk(n int) []int {
 func runC03(c *hx.Ctx) {
 	x := &c03{c: c, oracle: map[string]bool{}, prop: "c03"}
 	defer x.finishPanics()
+	x.startWatchdog(40 * time.Second)
 	if c.Replay != "" {
 		x.replay(c.Replay)
 		return
@@ -587,6 +589,8 @@ func (x *c03) replay(path string) {
 			x.gatedIntact()
 		case "closebehind":
 			x.closeBehindSend()
+		case "closeunblocks":
+			x.closeUnblocksReceive(kv(f, "kind"))
 		case "rearm":
 			x.timeoutRearmed(kv(f, "kind"))
 		case "closereal":
